@@ -431,6 +431,9 @@ func (c *trCtx) stmt(s ast.Stmt, k trK) trLines {
 			if out, ok := c.createReturnCall(x); ok {
 				return out // return f(…) with several results (trans_units_create.go)
 			}
+			if out, ok := c.importReturnCall(x); ok {
+				return out // return time.Parse(…) in the importer units (trans_units_import.go)
+			}
 			if call := c.isGetDefault(x.Results[0]); call != nil && c.nresults == 1 {
 				return c.getDefaultThen(call, func(v string) trLines { return c.returnTerm([]string{v}, x.Pos()) })
 			}
@@ -1130,6 +1133,7 @@ func (c *trCtx) switchStmt(x *ast.SwitchStmt, k trK) trLines {
 	type cas struct {
 		cond string
 		body []ast.Stmt
+		pre  []trPre
 	}
 	var cases []cas
 	var deflt []ast.Stmt
@@ -1155,14 +1159,18 @@ func (c *trCtx) switchStmt(x *ast.SwitchStmt, k trK) trLines {
 				conds = append(conds, c.expr(e))
 			}
 		}
+		var casePre []trPre
 		if len(c.pre) > 0 {
-			trFail(cc.Pos(), "a case expression that can panic is outside the subset")
+			if !c.importCasePre(x, cc) {
+				trFail(cc.Pos(), "a case expression that can panic is outside the subset")
+			}
+			casePre = c.takePre() // evaluated when the case is reached (trans_units_import.go)
 		}
 		cond := conds[0]
 		if len(conds) > 1 {
 			cond = "(" + strings.Join(conds, " || ") + ")"
 		}
-		cases = append(cases, cas{cond, cc.Body})
+		cases = append(cases, cas{cond, cc.Body, casePre})
 	}
 	// the cases in source order, the default last: a chain of if/else
 	var chain func(i int, k trK) trLines
@@ -1180,7 +1188,7 @@ func (c *trCtx) switchStmt(x *ast.SwitchStmt, k trK) trLines {
 		for _, s := range deflt {
 			rest.nodes = append(rest.nodes, s)
 		}
-		return c.branchSynth(cases[i].cond, cases[i].body, rest, x, k)
+		return trWrapPre(cases[i].pre, c.branchSynth(cases[i].cond, cases[i].body, rest, x, k))
 	}
 	out := chain(0, k)
 	if tagLet != nil {
